@@ -144,7 +144,11 @@ const STRING_CLASSES: [&str; 28] = [
     "u2028-mid",
     "seqn-lead",
 ];
-const BUILD_CLASSES: [&str; 13] = [
+const BUILD_CLASSES: [&str; 17] = [
+    "i64-max",
+    "i64-max+1",
+    "u64-max",
+    "u64-max+1",
     "non-numeric",
     "negative",
     "plus-sign",
@@ -247,6 +251,11 @@ fn hostile_build(rng: &mut Rng, class: &str) -> String {
         "plus-sign" => format!("+{n}"),
         "leading-zero" => format!("00{n}"),
         "beyond-i64" => "99999999999999999999".to_string(),
+        // the limits of the integer types a reader of a DEC column may use
+        "i64-max" => i64::MAX.to_string(),
+        "i64-max+1" => "9223372036854775808".to_string(),
+        "u64-max" => u64::MAX.to_string(),
+        "u64-max+1" => "18446744073709551616".to_string(),
         "beyond-u32" => "4294967296".to_string(),
         "lead-blank" => format!(" {n}"),
         "trail-blank" => format!("{n} "),
